@@ -1112,3 +1112,31 @@ _run7 = run
 def run(ctx, rep, tier):
     _run7(ctx, rep, tier)
     _optional_transition_results(ctx, rep, tier)
+
+
+def _range_collapse_bounds(ctx, rep, tier):
+    """C18.r: the range-collapse loop indexes the sorted symbol list with range_start / range_end. After the scan, range_start may equal the
+    length of the list (a transition on end-of-input alone leaves no character): the final 'valid range' test must establish that the index
+    exists, whatever the configured minimum length is (0 is a legal option value)."""
+    model = ctx.model
+    q = "CodegenCtx._generate_condition_for_transition"
+    rep.rule("C18.r", "range collapsing: the closing range test checks that a first element exists before the list is indexed (every option value, 0 included)")
+    fn = model.func(q)
+    ifs = [n for n in ast.walk(fn) if isinstance(n, ast.If) and "range_end - range_start >= ProgramData.option(ProgramOption.COLLAPSED_RANGE_LENGTH)" in ast.unparse(n.test)]
+    if len(ifs) != 2:
+        raise AnalysisError(f"C18.r: expected the in-scan and the closing range test, found {len(ifs)}")
+    closing = max(ifs, key=lambda n: n.lineno)
+    inscan = min(ifs, key=lambda n: n.lineno)
+    rep.check(re.match(r"range_start < len\(on_values_remaining\) and ", ast.unparse(closing.test)) is not None, "C18.r", q, "closing test: `range_start < len(list) and ...`",
+              "with --collapsed-range-length 0 the closing range test holds for an empty range: on_values_remaining[range_start] is an IndexError for any transition on end-of-input alone")
+    # in-scan emission happens at i > range_start, so range_start indexes an existing element there
+    loop = model.parents.get(model.parents.get(inscan))
+    rep.check(isinstance(loop, ast.For) and ast.unparse(loop.iter) == "range(start_idx + 1, len(on_values_remaining))", "C18.r", q, "in-scan test runs at an index beyond range_start (element exists)", "scan loop bounds changed")
+
+
+_run8 = run
+
+
+def run(ctx, rep, tier):
+    _run8(ctx, rep, tier)
+    _range_collapse_bounds(ctx, rep, tier)
